@@ -154,6 +154,9 @@ class Policy:
         self.mutate_reply = None      # callable(info: dict, frame: bytes) -> bytes | None (None = drop the reply)
         self.close_after_unregister = True
         self.list_identity_extra = b""   # a second CPF item (type, length, data) after the identity item, e.g. CIP Security 0x86
+        # session-handle field of a TCP ListIdentity REPLY.  The command needs no session, many devices answer it with 0 whatever the
+        # request carried; the field grants nothing, the client's session is the one RegisterSession returned: "echo" | "zero" | "other"
+        self.list_identity_session = "echo"
 
 
 class RefTarget:
@@ -327,7 +330,10 @@ class TcpConn:
                       (f"granted {self.session:#x}" if self.session is not None else "no session is registered on this connection"), frame[:32])
             extra = t.policy.list_identity_extra
             rbody = (2 if extra else 1).to_bytes(2, "little") + t.front.identity.list_identity_item() + extra
-            return self.reply({"kind": "list_identity"}, enc.build_frame(cmd, h["session"], rbody, context=h["context"]))
+            mode = t.policy.list_identity_session
+            rsess = h["session"] if mode == "echo" else 0 if mode == "zero" else ((h["session"] ^ 0x5A5A5A5A) & 0xFFFFFFFF) or 1
+            log.c(f"list-identity-reply-session:{mode}")
+            return self.reply({"kind": "list_identity"}, enc.build_frame(cmd, rsess, rbody, context=h["context"]))
         if cmd == enc.CMD_UNREGISTER:
             if body:
                 log.v("C11", "unregister-body", f"UnRegisterSession with {len(body)} command-data bytes", frame[:40])
